@@ -375,6 +375,7 @@ func (g *maskGen) gen(t *idlgen.RType, v *values.Value, depth int, count func(st
 			if np > 0 && g.r.Chance(70) && !(kk == 'k' && v.Key(p).I < 0) {
 				add(keyStep(t.Key, v.Key(p)), v.Val(p))
 				count("mask.key.present")
+				count("mask.key.present.keytype." + t.Key.String())
 			} else {
 				if kk == 'k' {
 					add(step{kind: 'k', id: int64(g.r.Intn(7))}, nil)
